@@ -579,6 +579,7 @@ class SimFS(object):
         self.read_fault_left = -1      # n >= 0: fail when n more lines have been delivered
         self.read_errno = "EIO"
         self.read_open_fault = None    # (k, errno name): the k-th open for reading from now fails
+        self.special = {}              # path of an empty file -> path of the file whose content a read delivers
         self.write_fault_left = -1
         self.write_errno = "ENOSPC"
         self.open_fault = None         # "w" -> EACCES on next open for writing
@@ -596,6 +597,8 @@ class SimFS(object):
                 exc = {"ENOENT": FileNotFoundError, "EACCES": PermissionError}.get(name, OSError)
                 raise exc(getattr(errno, name), "simulated " + name, path)
             self.read_open_fault = (left - 1, name)
+        # a special file (procfs / FUSE style): stat() says 0 bytes, reading delivers the content
+        path = self.special.get(path, path)
         real = builtins.open(path, mode, *a, **k)
         if "r" in mode and "b" not in mode:
             return _Reader(self, real, path)
@@ -734,6 +737,15 @@ class Sim(object):
         p = self.path(name)
         with builtins.open(p, mode, **({} if "b" in mode else {"encoding": "utf-8", "newline": ""})) as f:
             f.write(data)
+        return p
+
+    def write_special_file(self, name, data):
+        """a file whose size reads 0 although opening it delivers `data` (text files read through the open() seam only)"""
+        content = self.write_file(name + ".content", data)
+        p = self.path(name)
+        builtins.open(p, "w").close()
+        self.fs.special[p] = content
+        self.probes["special_zero_size_files"] += 1
         return p
 
 
